@@ -243,7 +243,7 @@ struct RegpHarness : Harness {
     std::vector<std::string> probes(const std::string &p) const override {
         std::vector<std::string> v;
         if (p == "C06") { for (int k = 0; k < 12; ++k) { v.push_back("verdict_read_" + std::to_string(k)); v.push_back("verdict_write_" + std::to_string(k)); }
-            for (const char *s : {"pipelined_3_or_more", "sequence_wrap", "word_size_mismatch", "response_ignored", "meta_ignored", "mem8", "mem16", "serial", "tcp", "zero_block_size", "request_from_real_client", "register_table_verdict_mapped", "reception_failure_inside_session", "block_recycled_with_stale_content", "reply_received_and_ignored_by_client"}) v.push_back(s); }
+            for (const char *s : {"pipelined_3_or_more", "sequence_wrap", "word_size_mismatch", "response_ignored", "meta_ignored", "mem8", "mem16", "serial", "tcp", "zero_block_size", "request_from_real_client", "register_table_verdict_mapped", "reception_failure_inside_session", "block_recycled_with_stale_content", "reply_received_and_ignored_by_client", "read_at_or_near_capacity"}) v.push_back(s); }
         else if (p == "C07") for (const char *s : {"flip1", "flip2", "burst", "truncate", "extend", "header_word_flip", "class_header_encoding", "class_header_crc", "class_payload_size", "class_payload_crc", "raw_accept", "raw_tcp", "option_plcrc_without_hdcrc", "odd_payload_ws16", "payload_fault_answered_with_error_response", "classified_from_fallback_buffer"}) v.push_back(s);
         else if (p == "C08") { for (const char *s : {"req_read8", "req_read16", "req_write8", "req_write16", "resp_ack_payload", "resp_ack_empty", "resp_meta", "payload_with_slip_control_octets", "varint_prefix_2_octets", "sequence_wrap", "roundtrip_accepted"}) v.push_back(s);
             for (int k = 1; k < 12; ++k) v.push_back("resp_code_" + std::to_string(k)); }
@@ -339,6 +339,7 @@ struct RegpHarness : Harness {
                     bool ws16 = r.chance(1, 8) ? (mt != 16) : (mt == 16);
                     bool wr = r.chance(1, 2);
                     Frame f = gen_valid(r, serial, wr ? T_WREQ : T_RREQ, ws16, maxwords);
+                    if (!wr && r.chance(1, 4)) f.bsize = 0x7fffffff;   // clamped to (capacity - 0..3) at execution time
                     o["k"] = r.chance(1, 2) ? "client" : "ref"; o["f"] = frame_json(f);
                     o["verdict"] = (long long)(r.chance(1, 2) ? 0 : r.below(12)); o["vaddr"] = (long long)(r.chance(1, 2) ? f.addr + r.below(8) : r.below(0x100000000ull));
                     o["salt"] = (long long)r.below(100000);
@@ -602,7 +603,7 @@ struct RegpHarness : Harness {
             if (k == "rawframe") {
                 Bytes raw = unhex(o.gets("raw")); if (raw.size() > room) raw.resize(room);
                 Frame tf; bool bad = classify(raw, tf) != V_ACCEPT;
-                if (!bad && tf.type == T_RREQ && (uint64_t)tf.bsize * (cf.mt == 16 ? 2 : 1) + 24 > room) continue;   // a damaged size field may ask for more than fits: C09's subject
+                if (!bad && tf.type == T_RREQ && (uint64_t)tf.bsize * (cf.mt == 16 ? 2 : 1) + (raw.size() - tf.payload.size()) > room) continue;   // a damaged size field may ask for more than fits: C09's subject
                 if (bad) { COUNT("probe.reception_failure_inside_session"); c.faults_fired++; COUNT("fault.damaged_frame_in_session"); }
                 Bytes w = frame_on(cf.serial, raw); c2s.data.insert(c2s.data.end(), w.begin(), w.end());
                 Pending pd; pd.raw = raw; pd.regcode = -1; pd.verdict = (int)(o.geti("verdict") % 12); if (pd.verdict < 0) pd.verdict = 0; pd.vaddr = (uint32_t)o.geti("vaddr"); pd.salt = (uint64_t)o.geti("salt");
@@ -611,7 +612,12 @@ struct RegpHarness : Harness {
             Frame f = frame_from(o.get("f"));
             // keep reads inside the transmit capacity for this property
             const size_t ws = cf.mt == 16 ? 2 : 1;
-            if (f.type == T_RREQ && (uint64_t)f.bsize * ws + 24 > room) f.bsize = (uint32_t)((room > 24 ? room - 24 : 0) / ws);
+            {   // "block sizes 0..capacity": the data of a read is stored behind the request's own header in the block
+                const size_t hdr = encode(f).size() - f.payload.size();
+                const size_t cap = (room > hdr ? room - hdr : 0) / ws;
+                if (f.type == T_RREQ && f.bsize > cap) f.bsize = (uint32_t)(cap - (cap ? (size_t)o.geti("salt") % (cap < 4 ? cap + 1 : 4) : 0));
+                if (f.type == T_RREQ && f.bsize + 3 >= cap) COUNT("probe.read_at_or_near_capacity");
+            }
             if (encode(f).size() > room) { size_t hl = encode(f).size() - f.payload.size(); size_t pl = room > hl ? room - hl : 0; pl -= pl % ((f.options & OPT_WS16) ? 2 : 1); f.payload.resize(pl); if (f.type != T_RREQ) f.bsize = (uint32_t)(pl / ((f.options & OPT_WS16) ? 2 : 1)); }
             Bytes raw;
             if (k == "client" && f.is_request()) {
